@@ -536,6 +536,10 @@ func runC18(c *rt.Ctx) {
 	for i := 0; i < nrand; i++ {
 		c.Case("enum", i, func(o *rt.Obs) { c18Case(c, o, i) })
 	}
+	// end to end: the `super` executable under strace's write-fault injection
+	for i, n := 0, c.N(12, 300); i < n; i++ {
+		c.Case("strace", i, func(o *rt.Obs) { c18StraceCase(c, o, i) })
+	}
 }
 
 var c18Thresh = []int{1, 2, 7, 64, 300, 4096, zngio.DefaultFrameThresh}
